@@ -451,6 +451,9 @@ pub fn run(seed: u64, tier: &str, shard: usize, nshards: usize, collide: bool) -
             let mut keys: Vec<u64> = (0..nkeys as u64).collect();
             keys.push(4 * shards as u64); // same shard as key 0..3, different hash
             (div, keys)
+        } else if rng.chance(1, 4) {
+            // full 64-bit hash collisions between neighbouring keys
+            (2, (0..nkeys as u64).collect())
         } else {
             (1, (0..nkeys as u64).collect())
         };
